@@ -23,6 +23,9 @@ pub struct BigUint {
 
 //@ include prelude/biguint_view.rs
 //@ include prelude/highbits.rs
+//@ include prelude/shiftnorm.rs
+//@ include prelude/bitval.rs
+//@ include prelude/bitsvalue.rs
 
 impl BigUint {
     // contract-only: `Zero::is_zero` re-homed as an inherent method (trait impl in src/biguint.rs; body proved below)
@@ -39,17 +42,22 @@ impl BigUint {
 //@ extract src/biguint.rs :: impl BigUint :: fn bits props=C07,C08
     pub fn bits(&self) -> /*+*/(r: /*-*/u64/*+*/)/*-*/
 //+{
-        requires self.wf(), self.dg().len() < MAX_DIGITS()
+        requires self.wf()
         ensures
             self.dg().len() == 0 ==> r == 0,
             self.dg().len() > 0 ==> r == 64 * (self.dg().len() - 1) + nbits(self.dg()[self.dg().len() - 1]),
+            self.v() < vstd::arithmetic::power2::pow2(r as nat),
+            self.v() != 0 ==> r >= 1 && self.v() >= vstd::arithmetic::power2::pow2((r - 1) as nat),
 //+}
     {
+//+{
+        proof { axiom_vec_u64_len(&self.data); vstd::arithmetic::power2::lemma2_to64(); }
+//+}
         if self.is_zero() {
             return 0;
         }
 //+{
-        proof { lemma_nbits_range(self.data@[self.data@.len() - 1]); }
+        proof { lemma_nbits_range(self.data@[self.data@.len() - 1]); lemma_bits_value(self.data@); }
 //+}
         let zeros: u64 = self.data.last().unwrap().leading_zeros().into();
         self.data.len() as u64 * u64::from(big_digit::BITS) - zeros
